@@ -409,13 +409,17 @@ def rule_c_d(repo, chk):
         q = Q.reachable_without(g, r, avoid_node=lambda n: n in bod)
         chk.ob('c', h.ref, 'the request body is taken from the parser before the request is fired', q is None and bool(bod), loc(h, r.ast), discr='body-attached')
     chk.ob('c', h.ref, 'request is fired from exactly one site', len(rf) == 1, loc(h, h.node), discr='request-once')
-    # the parser reports a transient error while a chunk's terminator has not arrived yet: only the header phase may reject on errno
-    errtests = [n for n in g.nodes if n.kind == 'test' and '.errno' in src(n.ast)]
-    inc_edge = pat.test_edge(lambda tt, pol: pol == 'F' and src(tt).endswith('.is_headers_complete()'))
-    for n in errtests:
-        q = pat.guarded_by(g, n, inc_edge)
-        chk.ob('c', h.ref, 'the parser\'s error state is consulted only while the headers are incomplete (in the body phase it is transient until the rest of a '
-                           'chunk arrives)', q is None, loc(h, n.ast), path=pat.path_lines(q) if q else None, discr='errno-only-in-header-phase')
+    # the front end rejects on the parser's error state in both phases: the parser must keep that state for what more data cannot cure — a condition that
+    # depends on where the read was cut (the terminator of a chunk has not arrived yet) is a wait, not an error
+    pbody = repo.func(WEB_PARSER, 'HttpParser._parse_body')
+    gpb = pbody.cfg()
+    estores = [n for n in gpb.nodes if n.kind == 'stmt' and 'self' in pat.stores_attr(n.ast, 'errno') and not pat.is_const(getattr(n.ast, 'value', None), None)]
+    short = pat.test_edge(lambda tt, pol: (lambda fc: fc is not None and fc[0].startswith('len(') and fc[1] in ('<', '<='))(pat.compare_fact(tt, pol)))
+    for n in estores:
+        in_handler = any(k == 'except' for k, _a in n.ctx)
+        after_short = [e for t_ in gpb.nodes if t_.kind == 'test' for e in t_.succ if short(e) and (e.dst is n or Q.reaches(e.dst, n))]
+        chk.ob('c', pbody.ref, 'the parser records an error only for what can never become valid: not on a path where it has just found that data is still missing',
+               in_handler or not after_short, loc(pbody, n.ast), detail='; '.join(src(e.src.ast) for e in after_short[:2]), discr='errno-never-transient')
     # d: wait exits keep the parser — no path drops the parser and then leaves without firing anything
     fires = [n for n in g.nodes if n.kind in ('stmt',) and pat.fire_calls(n.ast)]
     dels = [n for n in g.nodes if n.kind == 'stmt' and isinstance(n.ast, ast.Delete) and any(src(t) == f'self._buffers[{sock}]' for t in n.ast.targets)]
